@@ -74,8 +74,8 @@ func (*c15Prop) Plans(tier string) []Plan {
 	}
 }
 
-var c15SetOps = []string{"newset", "insert", "insert", "insert", "union", "union", "len", "each"}
-var c15MapOps = []string{"newmap", "inc", "inc", "inc", "filter", "filter", "get", "keys", "mapeach"}
+var c15SetOps = []string{"newset", "insert", "insert", "insert", "union", "union", "len", "each", "each-nested"}
+var c15MapOps = []string{"newmap", "inc", "inc", "inc", "filter", "filter", "get", "keys", "mapeach", "mapeach-nested"}
 
 func c15GenOp(r *Rand) c15Op {
 	var o c15Op
@@ -321,6 +321,57 @@ func (p *c15Pool) apply(o c15Op, probes map[string]int64) (class, detail string,
 			return "persist:set", fmt.Sprintf("handle s%d: %s", sa, d), false
 		}
 		p.log = append(p.log, fmt.Sprint(readSet(p.sets[sa])))
+	case "each-nested":
+		// re-entrancy: while iterating handle A, the callback iterates handle B (and A again)
+		var outer, inner []int
+		bad := ""
+		p.sets[sa].Each(func(v int) {
+			outer = append(outer, v)
+			if len(outer) == 1 {
+				if d := checkSet(p.sets[sa], p.msets[sa]); d != "" {
+					bad = d
+				}
+				// the foreign iteration comes last, so nothing re-establishes A's state
+				p.sets[sb].Each(func(w int) { inner = append(inner, w) })
+			}
+		})
+		probes["nested_iterations"]++
+		if bad != "" {
+			return "persist:set", fmt.Sprintf("handle s%d read inside its own Each: %s", sa, bad), false
+		}
+		if want := modelSet(p.msets[sa]); !eqInts(outer, want) {
+			return "model:each", fmt.Sprintf("Each over %v with a nested Each over %v visited %v", want, modelSet(p.msets[sb]), outer), false
+		}
+		if want := modelSet(p.msets[sb]); len(outer) > 0 && !eqInts(inner, want) {
+			return "model:each", fmt.Sprintf("nested Each over %v visited %v", want, inner), false
+		}
+	case "mapeach-nested":
+		mb := o.B % len(p.maps)
+		outer, inner := map[int]int{}, map[int]int{}
+		n, calls := 0, 0
+		bad := ""
+		p.maps[ma].Each(func(k, v int) {
+			outer[k] = v
+			calls++
+			if n == 0 {
+				n++
+				if d := checkMap(p.maps[ma], p.mmaps[ma]); d != "" {
+					bad = d
+				}
+				// the foreign iteration comes last, so nothing re-establishes A's state
+				p.maps[mb].Each(func(k2, v2 int) { inner[k2] = v2 })
+			}
+		})
+		probes["nested_iterations"]++
+		if bad != "" {
+			return "persist:map", fmt.Sprintf("handle m%d read inside its own Each: %s", ma, bad), false
+		}
+		if calls != len(p.mmaps[ma]) || fmt.Sprint(outer) != fmt.Sprint(p.mmaps[ma]) {
+			return "model:each", fmt.Sprintf("Each over %v with a nested Each over %v visited %v in %d calls", p.mmaps[ma], p.mmaps[mb], outer, calls), false
+		}
+		if len(p.mmaps[ma]) > 0 && fmt.Sprint(inner) != fmt.Sprint(p.mmaps[mb]) {
+			return "model:each", fmt.Sprintf("nested Each over %v visited %v", p.mmaps[mb], inner), false
+		}
 	case "newmap":
 		var im data.IntMap
 		m := map[int]int{}
